@@ -74,6 +74,7 @@ HEAP_PROGS = [
     ("one binary captured under two names by a spawned closure", "#{ a = [0xaa, 0xbb] __binary_concat__, b = a, p = @#{ [a, b] }, !p }", "[0xaabb, 0xaabb]"),
     ("a tuple holding one binary twice sent to a process", "#{ a = [0xaa, 0xbb] __binary_concat__, p = @#{ !#['bin, 'bin] }, [a, a] p, !p }", "[0xaabb, 0xaabb]"),
     ("scratch binaries dropped by calls", "#{ f = #'int { =n [0x01, 0x02] __binary_concat__ =scratch, n }, [1 f, 2 f, 3 f] }", "[1, 2, 3]"),
+    ("a higher-priority filter's message arrives while a lower-priority filter holds a binary message (D9; either arrival order yields 7)", "#{ loop = #'int { | =0 => 0 | [~, 1] __integer_subtract__ ^ }, p = @#{ x = ! [#'int { =n => Ok }, #'bin { =b => 600000 loop, Ok }], y = ! [#'bin, 500], z = ! [#'int, 500], 7 }, m1 = [0xaa, 0xbb] __binary_concat__, m1 p, 100000 loop, 5 p, !p }", "7"),
     ("result awaited twice", "#{ q = @#{ 1 }, p = @#{ [0xaa, 0xbb] __binary_concat__ }, x = !p, y = !p, [x, y] }", "[0xaabb, 0xaabb]"),
     ("consequence-less branch yielding a heap binary, then dropped", "#{ { | [0x01, 0x02] __binary_concat__ | 0x03 }, 1 }", "1"),
     ("binary pinned against itself", "#{ a = [0xaa, 0xbb] __binary_concat__, x = a =&a, [x, a] }", "[Ok, 0xaabb]"),
